@@ -68,9 +68,14 @@ pub fn check_case(ctx: &Ctx, stream: &str, idx: u64, label: &str, cfg: &WCfg, en
             for (k, v) in entries {
                 w.insert(k, v).map_err(|e| format!("insert io error: {}", e))?;
             }
+            // a third of these sinks commit on flush only (like a buffered file): finish() drops
+            // the sink, so what it wrote must have been flushed to be part of the file
+            if h % 3 == 0 {
+                shared.lock().unwrap().commit_on_flush = true;
+            }
             w.finish().map_err(|e| format!("finish io error: {}", e))?;
             let g = shared.lock().unwrap();
-            Ok(g.bytes.clone())
+            Ok(g.durable().to_vec())
         });
         match r {
             Ok(x) => x,
